@@ -207,7 +207,7 @@ def formal_tok(f) -> str:
 
 
 def case_line(mode: str, case: dict) -> str:
-    fs = case["raw"] if mode == "builder" else case["sig"]
+    fs = case["raw"] if mode in ("builder", "function") else case["sig"]
     if mode == "static":
         mode = f"staticat:{case['opset']}"  # the converter's promotion depends on the function's default opset (7b0eb49)
     args = list(case["args"])
@@ -1167,7 +1167,7 @@ def run_function_bodies(cases, stats):
 def check_function_bodies(run, drv, cases, stats):
     lines = []
     for c in cases:
-        lines += [case_line("builder", c), case_line("expected", c), case_line("repr", c)]
+        lines += [case_line("function", c), case_line("expected", c), case_line("repr", c)]
     outs = drv.ask(lines)
     real = run_function_bodies(cases, stats)
     problems = []
